@@ -17,6 +17,7 @@ EOF, BOF = 'EOF', 'BOF'
 CAP = 3            # cursor offsets 0..CAP-1 exact, then 'M' (>= CAP)
 M = 'M'
 MAXK = 16
+LM = 2             # left margin of the window: slots -LM..-1 hold the characters before the cursor
 
 
 def sat_add(a, b):
@@ -24,6 +25,11 @@ def sat_add(a, b):
         return M
     s = a + b
     return s if s < CAP else M
+
+
+# C12: "the delimiter that is part of a sizing command (\\left[, \\right), \\big( ...)" -- the literals whose recognition
+# right after a backslash is tracked
+SIZING_LITERALS = [p_ + d_ for p_ in ('left', 'right', 'big', 'Big', 'bigg', 'Bigg') for d_ in '()[]']
 
 
 class Alphabet:
@@ -181,23 +187,26 @@ class Frame:
 
 
 class St:
-    __slots__ = ('W', 'cur', 'frames', 'log', 'imprecise')
+    __slots__ = ('W', 'cur', 'frames', 'log', 'imprecise', 'neg', 'lit')
+    # lit: ('m', text) the characters at the cursor were just matched against this literal |
+    #      ('c', text, start) exactly that literal was consumed, starting at cursor offset `start`, and nothing since
+    # neg: literals (offset, text) that a look-ahead comparison at the current cursor position has excluded
 
-    def __init__(self, W, cur=0, frames=(), log=(), imprecise=False):
-        self.W, self.cur, self.frames, self.log, self.imprecise = W, cur, frames, log, imprecise
+    def __init__(self, W, cur=0, frames=(), log=(), imprecise=False, neg=frozenset(), lit=None):
+        self.W, self.cur, self.frames, self.log, self.imprecise, self.neg, self.lit = W, cur, frames, log, imprecise, neg, lit
 
     def copy(self):
-        return St(self.W, self.cur, tuple(f.copy() for f in self.frames), self.log, self.imprecise)
+        return St(self.W, self.cur, tuple(f.copy() for f in self.frames), self.log, self.imprecise, self.neg, self.lit)
 
     def key(self):
-        return (self.W, self.cur, tuple(f.key() for f in self.frames), self.log, self.imprecise)
+        return (self.W, self.cur, tuple(f.key() for f in self.frames), self.log, self.imprecise, self.neg, self.lit)
 
     @property
     def top(self):
         return self.frames[-1]
 
     def slot(self, off):
-        return self.W[off + 1]
+        return self.W[off + LM]
 
 
 COUNTED = 'EndOfLine'      # C09: "at most one line break" -- the one category whose multiplicity matters
@@ -232,6 +241,18 @@ class TokInterp(Interp):
         self.repo, self.A, self.registry = repo, alpha, registry
         self.mod = repo.modules['tokens']
         self.findings = {}          # key -> Finding (first window kept) ; plus counts
+        self.truncated = 0          # look-ahead paths cut off at the window edge
+        self.literal_watch = ()     # command literals whose comparison is tracked (set by explore)
+        esc_ = self.A.CC.members.get('Escape')
+        self.escape_syms = self.A.syms_of_ccs({int(esc_)}) if esc_ is not None else frozenset()
+        # does joining zero items hand out a shared module/class-level token (utils.Token.join -> Token.Empty)?
+        self.empty_join_shared = False
+        tokcls = repo.cls('utils.Token')
+        if tokcls is not None and tokcls.methods.get('join'):
+            for x in ast.walk(tokcls.methods['join'][-1].node):
+                if isinstance(x, ast.Return) and isinstance(x.value, ast.Attribute) and isinstance(x.value.value, ast.Name) \
+                        and x.value.value.id in ('Token', 'cls'):
+                    self.empty_join_shared = True
         self.finding_windows = collections.defaultdict(set)
         self.entry_key = None
         self.deref_sites = set()    # all `.category/.position` dereference sites evaluated (for floors)
@@ -258,10 +279,13 @@ class TokInterp(Interp):
     def with_slot(self, st, off, val):
         W = list(st.W)
         val = frozenset(val)
-        W[off + 1] = val
+        W[off + LM] = val
         if val == frozenset({EOF}):
-            for j in range(off + 2, len(W)):
+            for j in range(off + LM + 1, len(W)):
                 W[j] = frozenset({EOF})
+        if val == frozenset({BOF}):
+            for j in range(0, off + LM):
+                W[j] = frozenset({BOF})
         s = st.copy()
         s.W = tuple(W)
         return s
@@ -269,9 +293,9 @@ class TokInterp(Interp):
     def freeze_val(self, v, W):
         t = v[0]
         if t == 'slotcat':
-            return ('cat', frozenset(int(self.A.cc_of(x)) for x in W[v[1] + 1] if x not in (EOF, BOF)))
+            return ('cat', frozenset(int(self.A.cc_of(x)) for x in W[v[1] + LM] if x not in (EOF, BOF)))
         if t == 'item':
-            return ('staleitem', frozenset(x for x in W[v[1] + 1] if x not in (EOF, BOF)))
+            return ('staleitem', frozenset(x for x in W[v[1] + LM] if x not in (EOF, BOF)))
         if t == 'tuple':
             return ('tuple', tuple(self.freeze_val(x, W) for x in v[1]))
         if t == 'range':
@@ -284,12 +308,15 @@ class TokInterp(Interp):
     def consume(self, st, n):
         """advance the cursor by n (caller made sure slots 0..n-1 are not EOF)"""
         W = list(st.W)
-        eaten_syms = [W[1 + k] - {EOF, BOF} for k in range(n)]
+        eaten_syms = [W[LM + k] - {EOF, BOF} for k in range(n)]
         last_is_eof = W[-1] == frozenset({EOF})
-        newW = [W[n]] + W[n + 1:] + [frozenset({EOF}) if last_is_eof else self.A.TOP] * n
+        newW = W[n:] + [frozenset({EOF}) if last_is_eof else self.A.TOP] * n
         s = st.copy()
         s.W = tuple(newW)
         s.cur = sat_add(st.cur, n)
+        if n:
+            s.neg = frozenset()
+            s.lit = ('c', st.lit[1], st.cur) if st.lit is not None and st.lit[0] == 'm' and len(st.lit[1]) == n else None
         for fr in s.frames:
             fr.eaten = eaten_add(fr.eaten, eaten_syms)
             if len(fr.seq) < 2:
@@ -303,8 +330,12 @@ class TokInterp(Interp):
         return s
 
     def peek(self, off, st):
-        if off + 1 < 0 or off + 1 >= len(st.W):
+        if off + LM < 0:
             self.unsupported('peek offset %d outside the modelled window' % off)
+        if off + LM >= len(st.W):
+            # a look-ahead farther than the window: such runs are cut off (k-limiting); counted in the evidence
+            self.truncated += 1
+            return []
         cur = st.slot(off)
         outs = []
         absent = {EOF, BOF} & cur
@@ -436,6 +467,8 @@ class TokInterp(Interp):
             return [(('bound', v, attr), st)]
         if t == 'cursor':
             return [(('bound', v, attr), st)]
+        if t == 'range' and attr == 'startswith':
+            return [(('bound', v, attr), st)]
         self.unsupported('attribute .%s of %s' % (attr, t), n)
 
     def ev_Lambda(self, n, st):
@@ -460,12 +493,18 @@ class TokInterp(Interp):
             outs.append((v, s2))
         return outs
 
+    @staticmethod
+    def insync(st):
+        """(frame depth, name) of the token-valued locals whose text ends exactly at the cursor"""
+        return frozenset((d, k) for d, fr in enumerate(st.frames) for k, v in fr.vars.items()
+                         if v[0] == 'tok' and v[1].lag == 0)
+
     def forward_until(self, cond, peek_flag, st, node):
         """Buffer.forward_until(cond): consume items one at a time until cond(item) holds or the input ends;
         the result is the concatenation of what was consumed (summary of the method, see R11.d / R20)"""
         if cond[0] != 'lambda' or not peek_flag:
             self.unsupported('forward_until with a condition that is not a lambda over one item', node)
-        insync = frozenset(k for k, v in st.top.vars.items() if v[0] == 'tok' and v[1].lag == 0)
+        insync = self.insync(st)
         empty = Tok(start=st.cur, lag=0, blen=0, minlen=0, pos=('first', st.cur), kind=None, fresh=True, shared=False,
                     invented=False, origin=None, after=insync)
         results, work, seen = [], [(st, empty)], set()
@@ -526,6 +565,13 @@ class TokInterp(Interp):
         return outs
 
     def binop(self, n, l, r, st):
+        if l[0] == 'const' and r[0] == 'const' and isinstance(l[1], int) and isinstance(r[1], int) \
+                and not isinstance(l[1], bool) and not isinstance(r[1], bool) and isinstance(n.op, (ast.Mod, ast.Mult, ast.FloorDiv)):
+            try:
+                return ('const', {ast.Mod: lambda a, b: a % b, ast.Mult: lambda a, b: a * b,
+                                  ast.FloorDiv: lambda a, b: a // b}[type(n.op)](l[1], r[1]))
+            except ZeroDivisionError:
+                pass
         if isinstance(n.op, ast.Sub):
             if l[0] == 'pos' and r[0] == 'tokpos':
                 return ('posdiff', l[1], r[1])
@@ -552,7 +598,8 @@ class TokInterp(Interp):
         if a[0] == 'tok' and b[0] == 'tok':
             A_, B_ = a[1], b[1]
             contiguous = B_.blen is not None and A_.lag != M and B_.lag != M and A_.lag == B_.lag + B_.blen
-            if not contiguous and B_.blen is None and aname is not None and aname in B_.after and B_.lag == 0:
+            if not contiguous and B_.blen is None and aname is not None and (len(st.frames) - 1, aname) in B_.after \
+                    and B_.lag == 0:
                 contiguous = True
             if not contiguous:
                 if B_.blen is None or A_.lag == M or B_.lag == M:
@@ -707,6 +754,14 @@ class TokInterp(Interp):
                     self.unsupported('dict.%s' % fv[2], n)
             elif fv[0] == 'func':
                 outs += self.call_func(fv[1], n, s1)
+            elif fv[0] == 'bound' and fv[1][0] == 'range' and fv[2] == 'startswith' and len(n.args) == 1 and not n.keywords:
+                for pv, s2 in self.ev(n.args[0], s1):
+                    if isinstance(pv, Raised):
+                        outs.append((pv, s2))
+                    elif pv[0] == 'const' and isinstance(pv[1], str):
+                        outs += [(('const', b), s3) for b, s3 in self.range_match(fv[1], pv[1], s2, n, False, prefix=True)]
+                    else:
+                        self.unsupported('startswith(%s) on a look-ahead range' % pv[0], n)
             else:
                 self.unsupported('call of %s: %s' % (fv[0], norm(n)[:60]), n)
         return outs
@@ -791,8 +846,11 @@ class TokInterp(Interp):
         outs = []
         for s0 in states:
             first = s0.slot(0) - {EOF, BOF} if k > 0 else frozenset()
-            tok = Tok(start=s0.cur, lag=0, blen=k if k < CAP else None, minlen=min(k, 2), pos=('first', s0.cur),
-                      kind=('inh', frozenset(first)), fresh=False, shared=(k == 0), invented=False, origin=None)
+            # forward(0) joins nothing: utils.Token.join hands out the shared empty token, whose position is 0
+            tok = Tok(start=s0.cur, lag=0, blen=k if k < CAP else None, minlen=min(k, 2),
+                      pos=('first', s0.cur) if (k > 0 or not self.empty_join_shared) else ('other',),
+                      kind=('inh', frozenset(first)), fresh=False, shared=(k == 0 and self.empty_join_shared), invented=False, origin=None,
+                      after=self.insync(s0) if k >= CAP else frozenset())
             s1 = self.consume(s0, k)
             outs.append((('tok', tok), s1))
         return outs
@@ -823,14 +881,14 @@ class TokInterp(Interp):
             return self.forward(target - st.cur, st, node)
         shift = target - fr.entry
         Wen = list(fr.Wentry)
-        newW = [Wen[shift]] + Wen[shift + 1:] + [self.A.TOP] * shift
-        if shift:
-            # window before the entry slot is the consumed one; later slots unknown beyond snapshot
-            newW = Wen[shift:shift + 1] + Wen[shift + 1:] + [Wen[-1] if Wen[-1] == frozenset({EOF}) else self.A.TOP] * shift
+        # window before the entry slot is the consumed one; later slots unknown beyond snapshot
+        newW = Wen[shift:] + [Wen[-1] if Wen[-1] == frozenset({EOF}) else self.A.TOP] * shift
         s = st.copy()
         s.W = tuple(newW)
         s.cur = target
-        eaten_syms = [Wen[1 + j] - {EOF, BOF} for j in range(shift)]
+        s.neg = frozenset()
+        s.lit = None
+        eaten_syms = [Wen[LM + j] - {EOF, BOF} for j in range(shift)]
         for f2 in s.frames:
             if f2 is s.frames[-1] or (f2.rule is not None and all(f3.rule is None for f3 in s.frames[s.frames.index(f2) + 1:])):
                 f2.eaten = eaten_add((), eaten_syms)
@@ -874,6 +932,13 @@ class TokInterp(Interp):
                 else:
                     pos = ('other',)
                 invented = text[1] != ''
+                if invented and s1.lit is not None and s1.lit[0] == 'c' and s1.lit[1] == text[1]:
+                    # the literal is a copy of the characters just matched and consumed
+                    k_ = len(text[1])
+                    tok = Tok(start=s1.lit[2], lag=0, blen=k_ if k_ < CAP else None, minlen=min(k_, 2), pos=pos, kind=kind,
+                              fresh=True, shared=False, invented=False, origin=None)
+                    outs.append((('tok', tok), s1))
+                    continue
                 if invented:
                     self.note('invented-text', n, 'token constructed from the literal %r' % text[1], s1)
                 tok = Tok(start=s1.cur, lag=0, blen=0 if not invented else None, minlen=0 if not invented else 1,
@@ -970,12 +1035,19 @@ class TokInterp(Interp):
         moved = self.moved(fr.entry, st.cur)
         if rv[0] == 'tok':
             t = rv[1]
-            rec = ('emit', fr.rule, t._replace(origin=fr.rule), moved, fr.eaten or (frozenset(), 0), st.W[1], fr.seq)
+            rec = ('emit', fr.rule, t._replace(origin=fr.rule), moved, fr.eaten or (frozenset(), 0), st.W[LM], fr.seq)
             st.log = st.log + (rec,)
             return ('tok', t._replace(origin=fr.rule)), st
         if rv[0] == 'const' and rv[1] is None:
             if moved != 0:
-                st.log = st.log + (('silent', fr.rule, None, moved, fr.eaten or (frozenset(), 0), st.W[1], fr.seq),)
+                st.log = st.log + (('silent', fr.rule, None, moved, fr.eaten or (frozenset(), 0), st.W[LM], fr.seq),)
+            elif self.literal_watch and st.slot(-1) and st.slot(-1) <= self.escape_syms:
+                # the rule declines right after a backslash: which watched command literals could still stand at
+                # the cursor without the rule having compared (and excluded) them?
+                open_ = tuple(p for p in self.literal_watch if (0, p) not in st.neg and all(
+                    self.A.sym_of_char(ch) in st.slot(k) for k, ch in enumerate(p)))
+                if open_:
+                    st.log = st.log + (('declined', fr.rule, open_),)
             return rv, st
         if rv[0] in ('item', 'staleitem'):
             self.unsupported('rule %s returns a bare character item' % fr.rule)
@@ -1040,6 +1112,38 @@ class TokInterp(Interp):
                 s_f.top.vars[n.id] = ('tok', tk._replace(blen=0))
                 return [(True, s_t), (False, s_f)]
         return super().atom(n, st)
+
+    def range_match(self, l, p, st, node, neg, prefix):
+        """text.peek((lo, hi)) == p   /   text.peek((lo, hi)).startswith(p)"""
+        lo, hi = l[1], l[2]
+        if hi - lo < len(p) or lo < 0:
+            return [(neg, st)]
+        if lo + len(p) + LM >= len(st.W):
+            self.unsupported('range peek beyond the modelled window', node)
+        sneg = st
+        if self.literal_watch and self.shape_of(p) in self.watch_shapes():
+            sneg = st.copy()
+            sneg.neg = st.neg | {(lo, p)}
+        outs = [(neg, sneg)]
+        s1, ok = st, True
+        for k, ch in enumerate(p):
+            sym = self.A.sym_of_char(ch)
+            if sym not in s1.slot(lo + k):
+                ok = False
+                break
+            s1 = self.with_slot(s1, lo + k, {sym})
+        if ok and hi - lo > len(p) and not prefix:
+            # a longer range equals the literal only when the input ends right after it
+            if EOF in s1.slot(lo + len(p)):
+                s1 = self.with_slot(s1, lo + len(p), {EOF})
+            else:
+                ok = False
+        if ok:
+            if lo == 0 and p:
+                s1 = s1.copy()
+                s1.lit = ('m', p)
+            outs.append((not neg, s1))
+        return outs
 
     def split_slot(self, off, ints, st, neg):
         cur = st.slot(off)
@@ -1113,11 +1217,13 @@ class TokInterp(Interp):
             if l[0] == 'const' and r[0] == 'const':
                 return [((l[1] == r[1]) != neg, st)]
             if l[0] == 'range' and r[0] == 'const' and isinstance(r[1], str):
+                return self.range_match(l, r[1], st, node, neg, prefix=False)
+            if False:
                 lo, hi = l[1], l[2]
                 p = r[1]
                 if hi - lo < len(p) or lo < 0:
                     return [(neg, st)]
-                if lo + len(p) + 1 >= len(st.W):
+                if lo + len(p) + LM >= len(st.W):
                     self.unsupported('range peek beyond the modelled window', node)
                 outs = [(neg, st)]
                 s1, ok = st, True
@@ -1256,13 +1362,15 @@ class TokInterp(Interp):
             ordered, elems = it[1], it[2]
             if ordered:
                 frontier = [s0]
-                seen_shapes = set()
+                seen_shapes = {}
                 for p in elems:
                     shape = self.shape_of(p)
                     if shape is not None:
                         if shape in seen_shapes:
+                            if self.literal_watch:
+                                frontier = [self.same_shape_negs(f, seen_shapes[shape], [p]) for f in frontier]
                             continue
-                        seen_shapes.add(shape)
+                        seen_shapes[shape] = p
                     nxt = []
                     for s1 in frontier:
                         pv = p if isinstance(p, tuple) and p and p[0] in ('tuple', 'const') else self.lift(p)
@@ -1282,21 +1390,49 @@ class TokInterp(Interp):
                 # unordered collection: any element may be visited first; element bodies that fall
                 # through leave the state unchanged only if the body is pure -- we require it
                 shapes = {}
+                members = {}
                 for p in elems:
-                    shapes.setdefault(self.shape_of(p) or repr(p), p)
-                fell = [s0]
+                    k_ = self.shape_of(p) or repr(p)
+                    shapes.setdefault(k_, p)
+                    members.setdefault(k_, []).append(p)
+                negs = set()
                 for shape, p in shapes.items():
+                    shape_negs = None       # exclusions common to every fall-through path of this element
                     for s2 in self.assign(n.target, self.lift(p), s0):
                         for out, s3 in self.block(n.body, s2):
                             if out in (NEXT, CONTINUE):
                                 if s3.cur != s0.cur:
                                     self.unsupported('body of an unordered iteration moves the cursor and continues', n)
+                                # leaving the loop at the end means every element's body fell through
+                                d_ = self.same_shape_negs(s3, p, members[shape]).neg - s0.neg
+                                shape_negs = d_ if shape_negs is None else shape_negs & d_
                             elif out == BREAK:
                                 outs_all.append((NEXT, s3))
                             else:
                                 outs_all.append((out, s3))
-                outs_all += [(NEXT, f) for f in fell]
+                    negs |= shape_negs or set()
+                fell = s0
+                if negs:
+                    fell = s0.copy()
+                    fell.neg = s0.neg | negs
+                outs_all.append((NEXT, fell))
         return outs_all
+
+    def watch_shapes(self):
+        r = getattr(self, '_watch_shapes', None)
+        if r is None:
+            r = self._watch_shapes = {self.shape_of(q) for q in self.literal_watch}
+        return r
+
+    def same_shape_negs(self, st, rep, others):
+        """comparisons that excluded the representative `rep` of a shape exclude, on the same grounds, the other
+        elements of that shape which the loop visits (their bodies are abstractly identical)"""
+        add = {(lo, q) for (lo, r_) in st.neg if r_ == rep for q in others}
+        if not add or add <= st.neg:
+            return st
+        s = st.copy()
+        s.neg = st.neg | add
+        return s
 
     def shape_of(self, p):
         if isinstance(p, str):
@@ -1382,6 +1518,7 @@ def explore(repo, thorough=False):
 
     table = Table()
     it = TokInterp(repo, A, reg)
+    it.literal_watch = tuple(SIZING_LITERALS)
     rounds = []
 
     def on_backedge(loop, st):
@@ -1402,9 +1539,10 @@ def explore(repo, thorough=False):
     for m1name, m1 in m1_classes:
         for c0 in A.syms:
             for c1 in ((A.syms + [EOF]) if thorough else ['ANY']):
-                W = [frozenset(m1), frozenset({c0}), frozenset({c1}) if c1 != 'ANY' else A.TOP] + [A.TOP] * MAXK
+                m2 = frozenset({BOF}) if m1 == frozenset({BOF}) else A.ALL | {BOF}
+                W = [m2, frozenset(m1), frozenset({c0}), frozenset({c1}) if c1 != 'ANY' else A.TOP] + [A.TOP] * MAXK
                 if c1 == EOF:
-                    W = W[:3] + [frozenset({EOF})] * MAXK
+                    W = W[:LM + 2] + [frozenset({EOF})] * MAXK
                 for pname, prev in prevs:
                     table.windows += 1
                     it.entry_key = (m1name, c0, c1, pname)
@@ -1435,6 +1573,7 @@ def explore(repo, thorough=False):
     table.findings = it.findings
     table.finding_windows = it.finding_windows
     table.states = it.states
+    table.truncated = it.truncated
     table.deref_sites = it.deref_sites
     table.guard_sites = it.guard_sites
     table.alphabet = A
